@@ -9,9 +9,9 @@ PERSISTED = ["PublishAtLeastOnce", "PublishExactlyOnce", "PublishAtLeastOnceReta
 
 # which scenario families serve which property, and which clause prefixes a property owns
 FAMILIES = {
-    "C01": ["out", "restart"], "C02": ["restart"], "C03": ["out", "restart"], "C04": ["in", "inrestart"],
+    "C01": ["out", "restart", "wrap"], "C02": ["restart", "restart", "wrap"], "C03": ["out", "restart"], "C04": ["in", "inrestart"],
     "C05": ["out", "restart"], "C07": ["in"], "C10": ["connect", "req", "out", "in", "in"], "C11": ["req", "close"],
-    "C12": ["close"], "C13": ["hostile"], "C16": ["damage"], "C17": ["out", "restart", "req"],
+    "C12": ["close"], "C13": ["hostile"], "C16": ["damage"], "C17": ["out", "restart", "req", "wrap"],
     "C18": ["connect", "connect", "out"], "C14": ["req", "close", "out", "connect"], "C08": ["req", "out"],
 }
 OWNS = {p: [p + "_"] for p in FAMILIES}
@@ -133,7 +133,17 @@ def fam_connect(rnd, i, thorough):
     return b
 
 
-GEN = {"out": fam_out, "restart": fam_restart, "req": fam_req, "close": fam_close, "in": fam_in, "connect": fam_connect,
+def fam_wrap(rnd, i, thorough):
+    """Sequence numbers next to the 14-bit wrap: resends, stops and adoptions with the pending range straddling it."""
+    b = fam_restart(rnd, i, thorough) if rnd.random() < 0.6 else fam_out(rnd, i, thorough)
+    b["id"] = "wrap-%d" % i
+    b["cfg"].update({"startseq": rnd.choice([16380, 16381, 16382, 16383]), "amax": 4, "emax": 4})
+    if rnd.random() < 0.5:   # nothing gets through at first: the whole window stays pending
+        b["random"].update({"pdial": 0.9, "faults": 3})
+    return b
+
+
+GEN = {"wrap": fam_wrap, "out": fam_out, "restart": fam_restart, "req": fam_req, "close": fam_close, "in": fam_in, "connect": fam_connect,
        "damage": lambda r, i, t: fam_restart(r, i, t, damage=True),
        "inrestart": lambda r, i, t: fam_in(r, i, t, restart=True)}
 
